@@ -165,12 +165,52 @@ def classify_exc(e):
 CALL_LIMIT_S = 10
 
 
-def impl_expand(abbr, user_config):
-    from emmet import expand
+class cpu_time_limit:
+    """Like common.time_limit, but counts the CPU time of this process (ITIMER_PROF), not wall time: a call that is
+    merely descheduled on a loaded machine does not count as a hang, a loop that does not terminate still does."""
+
+    def __init__(self, seconds):
+        self.seconds = seconds
+
+    def _fire(self, signum, frame):
+        from common import Hang
+        raise Hang('no result after %s s of CPU time' % self.seconds)
+
+    def __enter__(self):
+        import signal
+        import threading
+        self.active = threading.current_thread() is threading.main_thread()
+        if self.active:
+            self.old = signal.signal(signal.SIGPROF, self._fire)
+            signal.setitimer(signal.ITIMER_PROF, self.seconds)
+        return self
+
+    def __exit__(self, *a):
+        if self.active:
+            import signal
+            signal.setitimer(signal.ITIMER_PROF, 0)
+            signal.signal(signal.SIGPROF, self.old)
+        return False
+
+
+def _limited_call(fn):
+    """fn() under the 10 s wall-clock limit; when that fires (a loaded machine can stall a 0.1 s call for longer)
+    the call is repeated once under the same limit in CPU time, and only that outcome counts."""
     from common import time_limit, Hang
     try:
         with time_limit(CALL_LIMIT_S):
-            return ('ok', expand(abbr, copy.deepcopy(user_config)))
+            return fn()
+    except Hang:
+        pass
+    with cpu_time_limit(CALL_LIMIT_S):
+        return fn()
+
+
+def impl_expand(abbr, user_config):
+    from emmet import expand
+    from common import Hang
+    try:
+        return ('ok', _limited_call(lambda: expand(abbr, copy.deepcopy(user_config))))
     except Hang:
         return ('hang', CALL_LIMIT_S)
     except Exception as e:  # noqa
@@ -194,10 +234,13 @@ def impl_events(abbr, user_config):
     uc['options'] = dict(uc['options'])
     uc['options']['output.field'] = field
     uc['options']['output.text'] = text
-    from common import time_limit, Hang
+    from common import Hang
+
+    def call():
+        del events[:]
+        return expand(abbr, copy.deepcopy(uc))
     try:
-        with time_limit(CALL_LIMIT_S):
-            out = expand(abbr, uc)
+        out = _limited_call(call)
         return ('ok', out, events)
     except Hang:
         return ('hang', CALL_LIMIT_S)
